@@ -14,9 +14,10 @@ Import ListNotations.
     writing it (any non-empty separator of blanks/tabs/line breaks, any padding inside
     parentheses, minimal parentheses plus any number of redundant layers) and every assignment
     [e] of the features, Evaluate returns the value of [x] with "not" > "and" > "or" - and in
-    particular neither an error nor out-of-fuel.  Unbounded in the size of the expression. *)
+    particular neither an error nor out-of-fuel.  Unbounded in the size of the expression.
+    [lookup e]: a name is looked up without its prefix ("p:a" is feature "a"). *)
 Theorem C11_eval_correct : forall sty x e, style_ok sty = true -> idents_ok x = true ->
-  eval_impl (print_text sty x) e = ROk (denote x e).
+  eval_impl (print_text sty x) e = ROk (denote x (lookup e)).
 Proof. exact eval_correct. Qed.
 Print Assumptions C11_eval_correct.
 
@@ -25,7 +26,7 @@ Print Assumptions C11_eval_correct.
     place; left- or right-nested chains), [w0]/[w1] are optional leading/trailing blanks. *)
 Theorem C11_eval_correct_written : forall e c w0 w1,
   wf c = true -> all_ws w0 = true -> all_ws w1 = true ->
-  eval_impl (w0 ++ render c ++ w1) e = ROk (denote (abstract c) e).
+  eval_impl (w0 ++ render c ++ w1) e = ROk (denote (abstract c) (lookup e)).
 Proof. exact eval_correct_cst. Qed.
 Print Assumptions C11_eval_correct_written.
 
